@@ -149,7 +149,8 @@ func NewPredicatePartitionStrategyWithMetricRegistry(
 	}
 
 	strategy := &PredicatePartitionStrategy{
-		partitions: partitions,
+		// a private copy: AddPartition appends to this list and must not write into the caller's backing array
+		partitions: append([]*PredicatePartition(nil), partitions...),
 		busy:       0,
 		limit:      limit,
 	}
